@@ -87,6 +87,7 @@ type Params struct {
 	Fast      bool  `json:"fast,omitempty"`  // scripted handshake first, random operations afterwards
 	FirstSize int   `json:"first,omitempty"` // server: size of the datagram that created the connection
 	Drain     int   `json:"drain,omitempty"` // end of history: 0 peer acknowledges everything, 1 peer falls silent for a while first
+	MTU       bool  `json:"mtu,omitempty"`   // generator bias only: after confirmation prefer path-MTU probes followed by one-packet-at-a-time traffic
 }
 
 // Pk describes one packet the connection wants to send.
@@ -102,7 +103,7 @@ type Pk struct {
 type Op struct {
 	K  string `json:"k"`            // send | recv | tick | retry | mig
 	Dt int64  `json:"dt,omitempty"` // microseconds
-	TM int    `json:"tm,omitempty"` // clock advance relative to the loss detection timeout: 0 +Dt, 1 to the deadline, 2 Dt before it, 3 Dt past it
+	TM int    `json:"tm,omitempty"` // clock advance relative to the loss detection timeout: 0 +Dt, 1 to the deadline, 2 Dt before it, 3 Dt past it; relative to the time-threshold expiry of the path-MTU probe in flight (plain +Dt without one): 4 Dt before it, 5 Dt past it
 
 	// send
 	Pk []Pk `json:"pk,omitempty"`
@@ -162,9 +163,14 @@ type mspace struct {
 	order        []int64 // sent packet numbers of the current history, ascending
 	largestSent  int64
 	largestAcked int64
-	skipped      []int64 // recorded skipped numbers of the current history, ascending
-	lastPop      int64
-	prevAcks     [][][2]int64
+	// bounds on the handler's own largest-acked of this space: it only moves when an ACK frame newly
+	// acknowledges something that is still in its history (ReceivedAck returns early otherwise), which the
+	// model knows for certain for ack-eliciting packets only (ACK-only packets and path-probe placeholders
+	// are swept silently by detectLostPackets). laLo <= handler's value <= laHi, -1 = none.
+	laLo, laHi int64
+	skipped    []int64 // recorded skipped numbers of the current history, ascending
+	lastPop    int64
+	prevAcks   [][][2]int64
 }
 
 type fh struct {
@@ -218,6 +224,10 @@ type machine struct {
 	closed                              bool
 
 	mtuInFlight *mpkt
+	// RFC 9002 6.1 applied to the path-MTU probe in flight (see mtuJudge)
+	mtuPend     int   // pendNo / pendMaybe / pendYes: the last loss detection run left the probe below largest-acked, not yet lost
+	mtuD        int64 // pendYes: send time + time threshold as of that run; the loss timer must not be later
+	loneNoTimer int   // hits of the (tolerated / known) finding C06/mtu-probe/loss-timer-not-armed
 	mtuSize     int64 // what the congestion controller was told
 	mtuAcked    int64 // largest acknowledged probe size
 	nonAE       int   // consecutive ACK-only application-data packets (packet_packer.go numNonAckElicitingAcks)
@@ -280,7 +290,7 @@ func newMachine(p Params) vf.Machine[Op] {
 		m.h = ackhandler.NewSentPacketHandler(ipn, 1252, m.rtt, &m.stats, p.Validated, false, ign, pers, ql, utils.DefaultLogger)
 	}
 	for i := range m.sp {
-		m.sp[i] = &mspace{pk: map[int64]*mpkt{}, largestSent: -1, largestAcked: -1, lastPop: -1}
+		m.sp[i] = &mspace{pk: map[int64]*mpkt{}, largestSent: -1, largestAcked: -1, laLo: -1, laHi: -1, lastPop: -1}
 	}
 	m.sp[spI].lastPop = int64(ipn) - 1
 	m.validated = !p.Server || p.Validated
@@ -559,6 +569,7 @@ func (m *machine) resolve(p *mpkt, st int) {
 	}
 	if p == m.mtuInFlight {
 		m.mtuInFlight = nil
+		m.mtuPend = pendNo
 		if st == stAcked {
 			m.mtuAcked = max(m.mtuAcked, p.size)
 		}
@@ -750,6 +761,7 @@ func (m *machine) sendPacket(pk Pk, kind int, at int64) *vf.Verdict {
 	}
 	if kind == 1 {
 		m.mtuInFlight = p
+		m.mtuPend = pendNo
 	}
 	if s == spA && kind == 0 {
 		if p.ae {
@@ -904,12 +916,15 @@ func (m *machine) recvAck(lvl int, r [][2]int64, delayUs int64, at int64) *vf.Ve
 	}
 	e := &expect{what: "ack", ack: map[*mpkt]bool{}, optAck: map[*mpkt]bool{}, loss: lossInSpace, lossSpace: s, pathLossOK: lvl == lv1, checkPIF: true}
 	must1, may1 := false, false
+	possibleNew := false // the frame may newly acknowledge something that is still in the handler's history
+	probe := m.mtuInFlight
 	for _, pn := range sp.order {
 		p := sp.pk[pn]
 		if p == nil || !covered(r, pn) {
 			continue
 		}
 		if p.st == stOut || p.st == stLimbo {
+			possibleNew = true
 			if p.path {
 				e.optAck[p] = true
 				if p.lvl == lv1 {
@@ -937,6 +952,15 @@ func (m *machine) recvAck(lvl int, r [][2]int64, delayUs int64, at int64) *vf.Ve
 	if largest > sp.largestAcked {
 		sp.largestAcked = largest
 	}
+	// ReceivedAck: "if len(ackedPackets) == 0 { return }" precedes the update of largestAcked and detectLostPackets
+	run := runNone
+	if len(e.ack) > 0 {
+		run = runCertain
+		sp.laLo, sp.laHi = max(sp.laLo, largest), max(sp.laHi, largest)
+	} else if possibleNew {
+		run = runMaybe
+		sp.laHi = max(sp.laHi, largest)
+	}
 	wantIgn := map[int64]bool{}
 	if lvl == lv1 {
 		for p := range e.ack {
@@ -953,6 +977,11 @@ func (m *machine) recvAck(lvl int, r [][2]int64, delayUs int64, at int64) *vf.Ve
 	ign := append([]int64(nil), m.ignBelow...)
 	if v := m.settle(e); v != nil {
 		return v
+	}
+	if s == spA {
+		if v := m.mtuJudge(probe, run, at, "ReceivedAck"); v != nil {
+			return v
+		}
 	}
 	for _, x := range ign {
 		if !wantIgn[x] {
@@ -989,6 +1018,7 @@ func (m *machine) timeoutCheck() *vf.Verdict {
 		return nil
 	}
 	peekBefore, _ := m.h.PeekPacketNumber(protocol.Encryption1RTT)
+	probe := m.mtuInFlight
 	m.begin("OnLossDetectionTimeout")
 	if err := m.h.OnLossDetectionTimeout(m.t()); err != nil {
 		return vf.Bad("C06/timeout/error", "OnLossDetectionTimeout at deadline+%v returned %v (the connection would close)", time.Duration(m.now-int64(to)), err)
@@ -996,6 +1026,15 @@ func (m *machine) timeoutCheck() *vf.Verdict {
 	m.class("timeout-fired")
 	m.sig = append(m.sig, 'T')
 	if v := m.settle(&expect{what: "timeout", loss: lossAny, pathLossOK: m.confirmed}); v != nil {
+		return v
+	}
+	// OnLossDetectionTimeout runs detectLostPackets iff a loss time is set; after confirmation only the
+	// application data space is left, and its loss time is certainly set while the probe is pending
+	run := runMaybe
+	if m.mtuPend == pendYes {
+		run = runCertain
+	}
+	if v := m.mtuJudge(probe, run, m.now, "OnLossDetectionTimeout"); v != nil {
 		return v
 	}
 	peekAfter, _ := m.h.PeekPacketNumber(protocol.Encryption1RTT)
@@ -1123,7 +1162,7 @@ func (m *machine) retry(at int64) *vf.Verdict {
 		if int64(pk) <= sp.lastPop {
 			return vf.Bad("C06/pn/not-increasing", "after Retry the next %s packet number is %d, but %d was already used", spName[s], pk, sp.lastPop)
 		}
-		m.sp[s] = &mspace{pk: map[int64]*mpkt{}, largestSent: -1, largestAcked: -1, lastPop: int64(pk) - 1}
+		m.sp[s] = &mspace{pk: map[int64]*mpkt{}, largestSent: -1, largestAcked: -1, laLo: -1, laHi: -1, lastPop: int64(pk) - 1}
 	}
 	m.rearm()
 	if m.ledger != 0 {
@@ -1144,14 +1183,27 @@ func (m *machine) advance(op Op) {
 		dt = 0
 	}
 	to := int64(m.h.GetLossDetectionTimeout())
+	if op.TM == 4 || op.TM == 5 {
+		if p := m.mtuInFlight; p != nil && p.st == stOut {
+			x := p.sendT + m.lossDelay()
+			if op.TM == 4 {
+				m.now = max(m.now, x-dt)
+			} else {
+				m.now = max(m.now, x+dt)
+			}
+		} else {
+			m.now += dt
+		}
+		return
+	}
 	switch {
-	case op.TM == 0 || to == 0:
+	case op.TM == 0 || to == 0 || op.TM < 0 || op.TM > 3:
 		m.now += dt
 	case op.TM == 1:
 		m.now = max(m.now, to)
 	case op.TM == 2:
 		m.now = max(m.now, to-dt)
-	default:
+	case op.TM == 3:
 		m.now = max(m.now, to) + dt
 	}
 }
@@ -1220,6 +1272,9 @@ func (m *machine) invariants(after string) *vf.Verdict {
 	}
 	if need != "" && !limited && to.IsZero() {
 		return vf.Bad("C06/timer/not-set", "after %s: %s data is outstanding, sending is not amplification-limited, but no loss detection deadline is set (bytes in flight %d)", after, need, m.ledger)
+	}
+	if v := m.mtuTimer(after, int64(to)); v != nil {
+		return v
 	}
 	mode := m.h.SendMode(m.t())
 	m.lastMode = mode
@@ -1541,4 +1596,152 @@ func (m *machine) mad() int {
 		return 25
 	}
 	return m.p.MaxAckMs
+}
+
+// ---------------------------------------------------------------------------------------------
+// RFC 9002 6.1 for path-MTU probe packets
+//
+// MTU probes are ack-eliciting and counted in bytes in flight, but they are not "outstanding" in the
+// handler's sense (packet.Outstanding): no PTO covers them. The only ways their frame is ever resolved are an
+// ACK, a migration, or loss detection by packet / time threshold, which therefore has to be applied to
+// them exactly as sentPacketHandler.detectLostPackets does on the unchanged tree:
+//
+//   - it runs in ReceivedAck whenever the frame newly acknowledged at least one packet (time = receive time
+//     of the ACK, after the RTT update), and in OnLossDetectionTimeout whenever a loss time is set;
+//   - a packet with pn <= largest acked is lost if sendTime <= now - max(9/8 * max(latest, smoothed RTT), 1 ms)
+//     or if history.Difference(largestAcked, pn) >= 3 (skipped numbers are not counted);
+//   - otherwise the space's loss time is set (send time + that delay for the first such packet) and the
+//     loss detection timer has to be armed for it (RFC 9002 6.1.2).
+//
+// The model does not know the handler's largest-acked exactly (see mspace.laLo/laHi); the verdicts below are
+// the ones that hold for every value in that interval.
+
+const (
+	pendNo = iota
+	pendMaybe
+	pendYes
+)
+
+const (
+	runNone = iota
+	runMaybe
+	runCertain
+)
+
+const sigLoneProbeTimer = "C06/mtu-probe/loss-timer-not-armed"
+
+// strictTimer: raise the tolerated finding (see NOTES.md, "MTU probe loss detection").
+func strictTimer() bool { return true } // the finding was repaired in /repo 930971c: always judged
+
+func (m *machine) lossDelay() int64 {
+	const timeThreshold = 9.0 / 8
+	maxRTT := float64(max(m.rtt.LatestRTT(), m.rtt.SmoothedRTT()))
+	d := time.Duration(timeThreshold * maxRTT)
+	return int64(max(d, protocol.TimerGranularity))
+}
+
+// difference is sentPacketHistory.Difference: a - b without the tracked skipped numbers in between.
+func (m *machine) difference(sp *mspace, a, b int64) int64 {
+	d := a - b
+	tr, _ := m.tracked(sp)
+	for _, x := range tr {
+		if x > b && x < a {
+			d--
+		}
+	}
+	return d
+}
+
+// mtuJudge is called after a ReceivedAck (application data) or OnLossDetectionTimeout call was settled. p is
+// the MTU probe that was in flight before the call, run says whether detectLostPackets ran in that call with
+// "now" = t.
+func (m *machine) mtuJudge(p *mpkt, run int, t int64, call string) *vf.Verdict {
+	if p == nil || p.st == stAcked || p.st == stDropped {
+		return nil
+	}
+	sp := m.sp[spA]
+	ld := m.lossDelay()
+	timeLost := p.sendT <= t-ld
+	lostAt := func(la int64) bool {
+		return p.pn <= la && (timeLost || m.difference(sp, la, p.pn) >= 3)
+	}
+	desc := func() string {
+		return fmt.Sprintf("%v sent %v before the loss detection of this call; time threshold %v (latest RTT %v, smoothed %v); largest acknowledged in [%d, %d], recently skipped %v; outstanding data packets: %d",
+			p, time.Duration(t-p.sendT), time.Duration(ld), m.rtt.LatestRTT(), m.rtt.SmoothedRTT(), sp.laLo, sp.laHi, func() []int64 { tr, _ := m.tracked(sp); return tr }(), m.numOutstanding())
+	}
+	if call == "ReceivedAck" && run == runCertain && p.pn <= sp.laLo && !m.hasOut(spA) {
+		// the ACK left no regular packet outstanding: loss detection has only the probe to look at
+		m.class("mtu-probe-alone-outstanding-at-ack")
+	}
+	if p.st == stLost {
+		if run == runNone || !lostAt(sp.laHi) {
+			return vf.Bad("C06/mtu-probe/lost-before-threshold", "%s declared the path MTU probe lost although neither the packet threshold (3) nor the time threshold is reached (or no packet sent after it was newly acknowledged): %s", call, desc())
+		}
+		switch {
+		case timeLost && call == "OnLossDetectionTimeout":
+			m.class("mtu-probe-lost-by-time")
+			m.class("mtu-probe-lost-at-loss-timer")
+		case timeLost:
+			m.class("mtu-probe-lost-by-time")
+		default:
+			m.class("mtu-probe-lost-by-packet-threshold")
+		}
+		return nil
+	}
+	if p.st != stOut {
+		return nil
+	}
+	if run == runCertain && lostAt(sp.laLo) {
+		which := "the time threshold has passed"
+		if !timeLost {
+			which = fmt.Sprintf("%d packets sent after it were sent before the largest acknowledged one", m.difference(sp, sp.laLo, p.pn))
+		}
+		return vf.Bad("C06/mtu-probe/not-declared-lost", "%s ran loss detection, a packet sent after the path MTU probe is acknowledged and %s, but the probe was not declared lost (its frame got no OnLost, its %d bytes stay in flight): %s", call, which, p.size, desc())
+	}
+	switch run {
+	case runCertain:
+		switch {
+		case p.pn <= sp.laLo:
+			m.mtuPend, m.mtuD = pendYes, p.sendT+ld
+			m.class("mtu-probe-pending-loss-timer")
+		case p.pn <= sp.laHi:
+			m.mtuPend = pendMaybe
+		default:
+			m.mtuPend = pendNo
+		}
+	case runMaybe:
+		if m.mtuPend != pendYes && p.pn <= sp.laHi {
+			m.mtuPend = pendMaybe
+		}
+	}
+	return nil
+}
+
+// mtuTimer: while the probe is pending (below largest acked, thresholds not reached at the last run) the
+// loss detection timer has to fire no later than its time-threshold expiry.
+func (m *machine) mtuTimer(after string, to int64) *vf.Verdict {
+	p := m.mtuInFlight
+	if p == nil || p.st != stOut || m.mtuPend != pendYes {
+		return nil
+	}
+	if to == 0 {
+		// Unchanged tree: lossDetectionTime cancels the alarm when nothing is "outstanding", which ignores
+		// the loss time that detectLostPackets just set for the probe. Tolerated finding, see NOTES.md.
+		detail := fmt.Sprintf("after %s: the path MTU probe %v is below the largest acknowledged packet and will pass the time threshold at +%v, but no loss detection timer is set (outstanding data packets: %d): until some later ACK newly acknowledges a packet the probe's frame is neither reported lost nor are its %d bytes removed from bytes in flight",
+			after, p, time.Duration(m.mtuD-m.now), m.numOutstanding(), p.size)
+		if m.hasOut(spA) {
+			return vf.Bad("C06/mtu-probe/loss-timer-late", "%s", detail)
+		}
+		m.loneNoTimer++
+		m.class("finding:lone-mtu-probe-without-loss-timer")
+		if !vf.IsKnown(sigLoneProbeTimer) && strictTimer() {
+			return vf.Bad(sigLoneProbeTimer, "%s", detail)
+		}
+		return nil
+	}
+	if to > m.mtuD {
+		return vf.Bad("C06/mtu-probe/loss-timer-late", "after %s: the path MTU probe %v passes the time threshold at %v, but the loss detection timer is set to %v later", after, p, time.Duration(m.mtuD-startTime), time.Duration(to-m.mtuD))
+	}
+	m.class("mtu-probe-loss-timer-armed")
+	return nil
 }
